@@ -595,5 +595,5 @@ def run(prop, tier, seed, replay=None, extra_cov=None):
              "harness observer (independent parser/encoder) and HMAC/CRC primitive crates, "
              "cross-checked against Python hashlib/zlib at setup",
              "verif_snapshot hook is a pure read of the client state",
-             "instants supplied by the driver are monotonic (API precondition)"])
+             "instants of send and timer calls are monotonic; receive instants may lie before the send instant of the request answered"])
     return 1 if violations else 0
